@@ -126,7 +126,17 @@ def check(F, R, tier):
             continue
         d = ds[0]
         cs = d.calls(r'details::cleanup_shared_memory$')
-        R.ob('MUST-CALL', 'MUST-CALL::%s::cleanup_shared_memory' % fnkey(d), len(cs) == 1 and d.exists_path(None, d.ret_sites(), cs, from_entry=True) is None, 'Drop detaches on every path', d.file + ':%s' % d.line, d)
+        ok_ = len(cs) == 1 and d.exists_path(None, d.ret_sites(), cs, from_entry=True) is None
+        how = 'through cleanup_shared_memory'
+        if not cs:
+            # the body of cleanup_shared_memory written out in the Drop: remove_state(own role) on every path, ownership taken only when
+            # the result says MarkedForDestruction
+            rs_ = d.calls(r'SharedManagementData::remove_state$')
+            ao_ = d.calls(r'DynamicStorage.*::acquire_ownership$')
+            ok_ = len(rs_) == 1 and d.exists_path(None, d.ret_sites(), rs_, from_entry=True) is None and d.const_of(rs_[0].args[1]) == role and \
+                all(any('remove_state' in c_ and 'MarkedForDestruction' in c_ and ' == ' in c_ for c_ in lib.path_conds(d, a_, F)) for a_ in ao_) and bool(ao_)
+            how = 'remove_state(%s) + acquire_ownership under == MarkedForDestruction, written out' % role
+        R.ob('MUST-CALL', 'MUST-CALL::%s::cleanup_shared_memory' % fnkey(d), ok_, 'Drop detaches on every path (%s)' % how, d.file + ':%s' % d.line, d)
         for x in cs:
             const_arg(R, d, x, lib.argi(F, x, 'state_to_remove', 1, r'details::State$'), {role}, 'own-role', 'a %s removes the %s bit' % (ty, role))
     for nm, role in (('remove_sender', 'Sender'), ('remove_receiver', 'Receiver')):
